@@ -445,6 +445,9 @@ def run(ctx: Ctx) -> int:
     if ok:
         dv = dict(zip([const_str(k) for k in kwd[0].value.keys], kwd[0].value.values))
         ok = isinstance(dv["_fail_no_subcommand"], ast.Constant) and dv["_fail_no_subcommand"].value is False
+        for src_k in ("env", "defaults"):
+            okk = src_k in dv and isinstance(dv[src_k], ast.Constant) and dv[src_k].value is False
+            ctx.oblige("C17.h", okk, kwd[0], f"a --cfg item is folded in with {src_k}=False: it contributes the file's content only" if okk else f"a --cfg item is parsed with {src_k}={ast.unparse(dv[src_k]) if src_k in dv else 'unset'}: with default_env on, every config file given on the command line drags the subcommand's environment variables in again - they then beat an earlier --cfg (three sources: --cfg a, --cfg b, APP_FIT__A)", fn=acf, construct=f"cfg item fold {src_k}=False")
         ok = ok and any(isinstance(it.context_expr, ast.Call) and call_leaf(it.context_expr) == "not_single_subcommand" for w in walk_local(acf) if isinstance(w, ast.With) for it in w.items)
     ctx.oblige("C17.h", ok, kwd[0] if kwd else acf, "a --cfg item is parsed without deciding the subcommand" if ok else "a --cfg item decides the subcommand while it is applied (fail_no_subcommand / not_single_subcommand changed)", fn=acf, construct="cfg item does not decide")
 
